@@ -7,4 +7,5 @@ import Dblib.Model.Decimal
 import Dblib.Model.Dsn
 import Dblib.Model.NamePool
 import Dblib.Model.Capability
+import Dblib.Props.C15
 import Dblib.Props.C20
